@@ -219,6 +219,17 @@ def explore_class(r, which, k, G, start, R, plan, fastok=None):
     return n
 
 
+def zero_run_messages():
+    """Leading-zero sweep: 0^z followed by a short or a long non-zero word, for every z in 0..48 and
+    around 64 - block boundaries of any word size up to 64 bits are crossed at every offset."""
+    out = []
+    tails = [[1], [1, 0, 1, 0], [1, 1, 1, 1, 1], [1] * 16, [1] + [0] * 15 + [1], [1, 0, 0, 1, 1, 1, 0, 1, 0, 1, 1]]
+    for z in list(range(0, 49)) + [63, 64, 65]:
+        for t in tails:
+            out.append([0] * z + t)
+    return out
+
+
 def long_messages(Ls):
     out = []
     for L in Ls:
@@ -373,6 +384,15 @@ def fixed_graphs():
     from .props.C03 import filter_masks
     out = [('complete-2', 2, O.complete(2)), ('complete-3', 3, O.complete(3)), ('complete-5', 5, O.complete(5)),
            ('gc-balanced-literal', 2, [list(x) for x in LITERAL])]
+    # every out-degree 3 (ternary de Bruijn graphs) and a 1/2/3/4 mixture: radix 3 on long numbers
+    for k in (2, 3):
+        tern = {O.idx(''.join(p)) for p in itertools.product('ACG', repeat=k)}
+        out.append(('ternary-%d' % k, k, O.from_mask(tern, k)))
+    mixed = O.complete(2)
+    for u, j in ((0, 0), (1, 1), (1, 2), (5, 0), (5, 1), (5, 3), (10, 2), (15, 3), (7, 0), (7, 3)):
+        mixed[u][j] = -1
+    out.append(('mixed-1234', 2, mixed))
+    out.append(('mixed-order1', 1, [[0, 1, 2, 3], [0, -1, 2, -1], [-1, 1, -1, -1], [0, 1, 2, -1]]))
     fm = filter_masks(3, 4)
     for i in (1, 3, 8, 12 + 0, 12 + 4, 12 + 6):
         k, mask = fm[i]
@@ -388,7 +408,21 @@ def w_long(args):
     r = core.Res()
     acc = U.A(G)
     tab = None if T is None else np.array(T, dtype=int)
-    rt_case(r, which, k, G, acc, start, T, tab, bits, fast, vt=False)
+    s_ = rt_case(r, which, k, G, acc, start, T, tab, bits, fast, vt=False)
+    if which == 'C05' and isinstance(s_, str):
+        # reading the strand back: the digit value rendered big-endian at the message width
+        import dsw
+        L = len(bits)
+        st, back, _ = brun(dsw.decode, s_, L, acc, start, is_faster=fast, shuffles=tab, lim=budget(L + len(s_), len(G)))
+        r.trans += 1
+        r.evals += 1
+        if fast:
+            exp = list(bits)
+        else:
+            exp = O.value_bits(O.ref_value(s_, G, start, T), L) if O.is_walk(G, start, s_) else None
+        if exp is not None and (st != 'ok' or not _same_bits(back, exp)):
+            r.v('C05|decode-walk|%s|table=%s|long-strand-value-not-big-endian-at-width' % ('fast' if fast else 'normal', tname(T)), 'long',
+                case_of(k, G, start, T, bits, fast, {'name': name}), exp[:64], back if st == 'ok' else repr(back))
     if which == 'C01' and not fast:
         vt_case(r, k, G, acc, start, T, tab, bits, fast, 4)
     r.states += 1
@@ -416,6 +450,19 @@ def long_jobs(which, quick):
                     jobs.append((which, name, k, G, start, False, T, bits))
                     if no_deg3(G, R):
                         jobs.append((which, name, k, G, start, True, T, bits))
+    sweep = zero_run_messages()
+    for name, k, G in fixed_graphs():
+        if name not in ('complete-2', 'gc-balanced-literal', 'ternary-2', 'mixed-1234', 'mixed-order1'):
+            continue
+        live = sorted(O.has_arcs(G))
+        start = live[0]
+        if not O.wellformed_start(G, start):
+            continue
+        R = O.reach(G, start)
+        for bits in sweep:
+            jobs.append((which, name, k, G, start, False, None, bits))
+            if no_deg3(G, R) and len(bits) % 3 == 0:
+                jobs.append((which, name, k, G, start, True, None, bits))
     jobs.sort(key=lambda j: -len(j[7]))
     return jobs
 
